@@ -35,7 +35,7 @@ def email(rng, odd=False):
 TS_GRID = [0, 1, 2, 9, 10, 99, 1234567890, 2**31 - 1, 2**31, 2**32 - 1, 2**32, 99999999999, 2**62, 2**63 - 1]
 TS_ODD = [b"-1", b"-5", b"-62135596800", b"9223372036854775808", b"18446744073709551615", b"18446744073709551616",
           b"12345678901234567890123", b"+5", b"0005", b"1e3", b"", b"12a", b"0x10", b"1_000"]
-ZONES = [b"+0000", b"-0000", b"+0100", b"-0130", b"+0530", b"-0800", b"+1400", b"-1200", b"+0059", b"+2359"]
+ZONES = [b"+0000", b"+0200", b"+0100", b"-0130", b"+0530", b"-0800", b"+1400", b"-1200", b"+0059", b"+2359"]
 ZONES_ODD = [b"+9999", b"-9999", b"+0060", b"+0090", b"-0030", b"-0001", b"+05", b"0530", b"+053000", b"+5", b"-05-3", b"+0a00",
              b" 0530", b"+05 30", b"00530", b"++530", b"+1260", b"-0099", b""]
 
@@ -47,7 +47,7 @@ def ts_canon(rng):
 def ident_line(rng, odd):
     """the text after 'author ' (no LF)"""
     if not odd:
-        return name(rng) + b" <" + email(rng) + b"> " + ts_canon(rng) + b" " + rng.choice(ZONES)
+        return name(rng) + b" <" + email(rng) + b"> " + ts_canon(rng) + b" " + (rng.choice(ZONES) if rng.random() < 0.95 else b"-0000")
     k = rng.randrange(16)
     nm, em = name(rng, rng.random() < 0.5), email(rng, rng.random() < 0.4)
     ts = rng.choice(TS_ODD) if rng.random() < 0.5 else ts_canon(rng)
@@ -151,7 +151,7 @@ def commit_headers(rng, odd=False, nsig=None, n256=None):
     g.append(("author", [b"author " + ident_line(rng, odd and rng.random() < 0.5) + b"\n"]))
     g.append(("committer", [b"committer " + ident_line(rng, odd and rng.random() < 0.5) + b"\n"]))
     if rng.random() < 0.3:
-        g.append(("encoding", [b"encoding " + rng.choice([b"ISO-8859-1", b"latin1", b"UTF-8", b"utf-8", b"x"]) + b"\n"]))
+        g.append(("encoding", [b"encoding " + rng.choice([b"ISO-8859-1", b"latin1", b"ISO-8859-1", b"koi8-r", b"UTF-8", b"utf-8", b"x"]) + b"\n"]))
     for _ in range(pick_weighted(rng, [(4, 0), (3, 1), (2, 2)])):
         g.append(("extra", extra_header(rng, odd)))
     nsig = pick_weighted(rng, [(4, 0), (5, 1)]) if nsig is None else nsig
@@ -224,6 +224,9 @@ def raw_commit(rng, bucket):
             g[0] = ("tree", [b"tree  " + rhash(rng) + b"\n"])
         elif r < 0.65:
             g[0] = ("tree", [b"tree " + rhash(rng) + b" \n"])
+        elif r < 0.75:
+            g.insert(rng.randrange(1, len(g) + 1), ("encoding", [rng.choice([b"encoding\n", b"encoding \n"])]))
+            g.append(("encoding", [b"encoding latin1\n"]))
         return assemble(g, message(rng))
     if bucket == "eofhdr":
         # the object ends inside the header block: no blank line, with or without final LF
